@@ -112,6 +112,10 @@ impl SchemaIx {
     }
     /// can a fragment with condition `cond` apply inside parent type `parent`? (spec: possible types intersect)
     pub fn spread_possible(&self, parent: &str, cond: &str) -> bool {
+        // identical composite types always overlap (as graphql-js's doTypesOverlap), even an interface nobody implements
+        if parent == cond && self.is_composite(parent) {
+            return true;
+        }
         let a: BTreeSet<String> = self.possible(parent).into_iter().collect();
         self.possible(cond).iter().any(|x| a.contains(x))
     }
